@@ -556,16 +556,17 @@ func VerifC13_many() {
 	}
 }
 
-// VerifC13_sharedrow: a row object that sits in two tables (or twice in one) is a target in every
-// render pass of every table holding it: its own callbacks and its cells' fire once per listing per pass,
-// whatever the order and number of passes of the tables.
+// VerifC13_sharedrow: a row object that sits in two tables is a target in every render pass of each
+// table holding it: its own callbacks and its cells' fire once per pass, whatever the order and number
+// of passes of the two tables. (A row listed twice in one table is left out: the statement does not say
+// whether that is one target or two.)
 func VerifC13_sharedrow() {
 	var log []vfEv
 	t1, t2 := New(), New()
 	r := NewRow()
 	r.Add(NewCell("s1")).Add(NewCell("s2"))
 	listings1, listings2 := 1, 1
-	switch vfChoice("layout", 3) {
+	switch vfChoice("layout", 2) {
 	case 0:
 		t1.AddRow(r)
 		t2.AddRowItems("x")
@@ -574,12 +575,6 @@ func VerifC13_sharedrow() {
 		t1.AddRowItems("x")
 		t1.AddRow(r)
 		t2.AddRow(r)
-	case 2: // also listed twice in the first table
-		t1.AddRow(r)
-		t1.AddRowItems("x")
-		t1.AddRow(r)
-		t2.AddRow(r)
-		listings1 = 2
 	}
 	rowCB := &vfRecCB{id: 1, log: &log, key: &vfKeyT13{1}}
 	cellCB := &vfRecCB{id: 2, log: &log, key: &vfKeyT13{2}}
